@@ -462,6 +462,19 @@ def inplace_targets(run, M):
             while isinstance(tgt, ast.Subscript):
                 tgt = tgt.value
             if isinstance(tgt, ast.Call) and isinstance(tgt.func, ast.Attribute) and tgt.func.attr in MAYBE_COPY:
+                # a contiguous slice of a buffer this very function has just allocated (empty / zeros) is C-contiguous: reshaping it gives a view
+                root = tgt.func.value
+                only_basic = True
+                while isinstance(root, ast.Subscript):
+                    if not isinstance(root.slice, ast.Slice) or root.slice.step is not None:
+                        only_basic = False
+                    root = root.value
+                fresh = isinstance(root, ast.Name) and only_basic and tgt.func.attr == "reshape" and any(
+                    isinstance(a_, ast.Assign) and len(a_.targets) == 1 and isinstance(a_.targets[0], ast.Name) and a_.targets[0].id == root.id
+                    and isinstance(a_.value, ast.Call) and ast.unparse(a_.value.func).split(".")[-1] in ("empty", "zeros", "ones")
+                    for a_ in ast.walk(f.node))
+                if fresh:
+                    continue
                 n += 1
                 run.bad("SW", q, f.loc(c), "%s writes in place into `%s`: for a strided or Fortran-ordered array that expression is a copy, so the update never reaches "
                         "`%s` (in-place semantics hold only for C-contiguous arrays)" % (q, ast.unparse(tgt)[:80], ast.unparse(tgt.func.value)[:40]), stmt="SW:%s:%d" % (q, c.lineno))
